@@ -81,6 +81,17 @@ def beqList : List Datum → List Datum → Bool
   | _, _ => false
 end
 
+mutual
+/-- number of nodes -/
+def size : Datum → Nat
+  | prim _ _ | sym _ _ | nil _ => 1
+  | pair a d _ => a.size + d.size + 1
+  | vec xs _ => sizeList xs + 1
+def sizeList : List Datum → Nat
+  | [] => 0
+  | x :: xs => x.size + sizeList xs
+end
+
 /-- proper list of data (locations of the spine are `none`, as `From<DatumList> for Datum`;
 the head gets `l`) -/
 def ofList (l : Loc) : List Datum → Datum
